@@ -336,6 +336,22 @@ def order_hook(world, spec, oi, op, q, rec):
                     _add(rec, "not_randomised", "field %s is a solver variable of an ordered rand set but belongs to none of the groups randomised in "
                          "sequence %s: its value is left to the solver's default model" % (
                              R.vname(rec["fm_path"].get(id(fm), ("?",))), [[getattr(f, "name", "?") for f in g] for g in order]), op, oi)
+        # ... and an ordering between two fields exists only if an enabled block (or the call) states it: transitive closure of
+        # the active directives
+        if order is not None:
+            succ = {}
+            for befores, afters in rec["env"].order_log:
+                for bn in befores:
+                    for an in afters:
+                        succ.setdefault(bn, set()).add(an)
+            named = set(succ) | set(x for v in succ.values() for x in v)
+            for gi, grp in enumerate(order):
+                for f in grp:
+                    pth = rec["fm_path"].get(id(f))
+                    nm = R.vname(pth) if pth is not None else None
+                    if nm is not None and nm not in named:
+                        _add(rec, "order_violation", "field %s is placed in ordered group %d %s although no enabled solve_order statement names it (active "
+                             "directives: %s)" % (nm, gi, [[getattr(x, "name", "?") for x in g] for g in order], rec["env"].order_log), op, oi)
         last_group = -1
         pending = None
         last_sat = None
